@@ -74,16 +74,19 @@ class AvroWriter(AbstractWriter):
         self.writer.write(r._packdict())
 
     def flush(self):
-        if not self.writer:
-            self.writer = fastavro.write.Writer(
-                self.fp,
-                fastavro.parse_schema({"type": "record", "name": "empty"}),
-                codec=self.codec,
-            )
-        self.writer.flush()
+        if self.writer:
+            self.writer.flush()
 
     def close(self) -> None:
         if self.fp:
+            if not self.writer:
+                # nothing was written: leave a valid, empty Avro container. (Not done in flush(): a writer
+                # with the placeholder schema would make every later write() fail or lose its record.)
+                self.writer = fastavro.write.Writer(
+                    self.fp,
+                    fastavro.parse_schema({"type": "record", "name": "empty"}),
+                    codec=self.codec,
+                )
             # write out the buffered block (and the header of an empty file) before closing
             self.flush()
         if self.fp and not is_stdout(self.fp):
